@@ -93,6 +93,9 @@ func withString(pos, s string) *specs.Spec {
 	return sp
 }
 
+// thoroughTier is set by main before the variants are built.
+var thoroughTier bool
+
 func numericSpecs() map[string]*specs.Spec {
 	out := map[string]*specs.Spec{}
 	mk := func(name string, f func(e *specs.ContainerEdits)) {
@@ -148,6 +151,25 @@ func numericSpecs() map[string]*specs.Spec {
 		sp.Devices = []specs.Device{{Name: "mid", ContainerEdits: unsorted("mid")}, {Name: "zeta", ContainerEdits: specs.ContainerEdits{Env: []string{"Z=1"}}},
 			{Name: "alpha", ContainerEdits: unsorted("alpha")}, {Name: "0first", ContainerEdits: specs.ContainerEdits{Env: []string{"F=1"}}}, {Name: "k", ContainerEdits: specs.ContainerEdits{Env: []string{"K=1"}}}}
 		out["every-list-unsorted-with-repeats"] = sp
+	}
+	// large documents: a line longer than 64 KiB, a string above 1 MiB, a file of several MiB made
+	// of many devices (size limits of readers and scanners)
+	for name, n := range map[string]int{"string-70KiB": 70 << 10, "string-1.5MiB": 3 << 19} {
+		sp := baseSpec()
+		sp.Devices[0].ContainerEdits.Env = []string{"BIG=" + strings.Repeat("x", n), "AFTER=1"}
+		out["large-"+name] = sp
+	}
+	{
+		sp := baseSpec()
+		nDev := 15000
+		if thoroughTier {
+			nDev = 60000
+		}
+		for i := 0; i < nDev; i++ {
+			sp.Devices = append(sp.Devices, specs.Device{Name: fmt.Sprintf("dev%05d", i), ContainerEdits: specs.ContainerEdits{Env: []string{fmt.Sprintf("INDEX=%d", i)},
+				DeviceNodes: []*specs.DeviceNode{{Path: fmt.Sprintf("/dev/node%05d", i), Type: "c", Major: 1, Minor: int64(i)}}}})
+		}
+		out["large-many-devices"] = sp
 	}
 	// kinds / names
 	sp := baseSpec()
@@ -375,6 +397,7 @@ func main() {
 		base, _ = os.MkdirTemp("", "verif-c09-")
 	}
 	defer os.RemoveAll(base)
+	thoroughTier = r.Thorough()
 	nums := numericSpecs()
 	build := func(c Case) *specs.Spec {
 		if c.Kind == "numeric" {
